@@ -138,15 +138,25 @@ pub fn take_trace() -> Trace {
 // H4 / H5 - SCHEDULER SEAM (only with rustc `--cfg verif_shuttle`, where the
 // `shuttle` crate is provided by the verification harness' shadow manifest)
 
-/// Drop-in for `std::sync::LazyLock<T, fn() -> T>` whose once-cell is a
-/// scheduling point of the shuttle scheduler and whose storage is per execution.
+/// Drop-in for `std::sync::LazyLock<T, fn() -> T>` whose once-cell is a scheduling point of the
+/// shuttle scheduler and is fresh in every execution (so every execution races the first use like a
+/// new process), while the value itself lives for the whole process like a real `static`
+/// (the initialiser is deterministic, so later executions produce the same value and drop it).
 #[cfg(verif_shuttle)]
-pub struct LazyLock<T: Sync + 'static>(shuttle::lazy_static::Lazy<T>);
+pub struct LazyLock<T: Sync + 'static> {
+    once: shuttle::sync::Once,
+    init: fn() -> T,
+    value: std::sync::OnceLock<T>,
+}
 
 #[cfg(verif_shuttle)]
 impl<T: Sync + 'static> LazyLock<T> {
     pub const fn new(init: fn() -> T) -> Self {
-        Self(shuttle::lazy_static::Lazy::new(init))
+        Self {
+            once: shuttle::sync::Once::new(),
+            init,
+            value: std::sync::OnceLock::new(),
+        }
     }
 }
 
@@ -155,9 +165,11 @@ impl<T: Sync + 'static> std::ops::Deref for LazyLock<T> {
     type Target = T;
 
     fn deref(&self) -> &T {
-        // SAFETY: only ever used for `static` items.
-        let this: &'static Self = unsafe { &*std::ptr::from_ref(self) };
-        this.0.get()
+        self.once.call_once(|| {
+            let value = (self.init)();
+            let _ = self.value.set(value);
+        });
+        self.value.get().expect("initialised by call_once")
     }
 }
 
